@@ -283,6 +283,7 @@ static size_t total(const std::vector<int>& f) { size_t s = 0; for (int v : f) s
 static size_t h_tokens(const std::vector<double>& h, const std::vector<int>& fr, int L, int M) { return h.size() + total(fr) * size_t(1 + (L + M - 1) / M); }
 
 // all tests of one (kind, L, M)
+static int g_corr_reps = 6;   // only the first repetitions of a (kind, L, M) go through CORR (output volume)
 static void sweep_ratio(vh::Rng& r, Kind k, int L, int M, int reps, size_t corr_budget) {
     const int R = std::max(L, M);
     const int Mfr = (k == INTERP) ? 1 : (k == RESAMPLER ? M / std::gcd(L, M) : M);
@@ -313,7 +314,7 @@ static void sweep_ratio(vh::Rng& r, Kind k, int L, int M, int reps, size_t corr_
         const auto frames = gen_frames(r, Mfr, r.range(1, 4), (rep % 2) ? maxmult : std::max(1, maxmult / 8 + 1), rep % 3 != 1);
         const char* xkind;
         const auto X = gen_x(r, total(frames) + size_t(2 * M + 2), r.range(0, 5), fmax, &xkind);
-        const bool corr = h_tokens(h, frames, L, Mfr) <= corr_budget;
+        const bool corr = rep < g_corr_reps && h_tokens(h, frames, L, Mfr) <= corr_budget;
         run_converter(k, L, M, h, hkind, dflt, frames, X, xkind, corr);
     }
 }
@@ -514,7 +515,8 @@ int main(int argc, char** argv) {
     case_polyphase({1.0, -1.0, 0.0}, 2, 2.0, true);
 
     // ---- the converters: all reduced L/M in 1..16 (both tiers; quick with fewer repetitions)
-    const int reps = a.thorough ? 12 : 6;
+    const int reps = a.thorough ? 72 : 12;
+    g_corr_reps = a.thorough ? 12 : 6;
     const size_t budget = a.thorough ? 5000 : 2500;
     for (int L = 1; L <= NMAX; ++L)
         for (int M = 1; M <= NMAX; ++M) {
@@ -539,8 +541,8 @@ int main(int argc, char** argv) {
     sweep_ratio(rng, DECIM, 1, 1, 3, budget);
     for (auto pq : audio) {
         const int L = pq.first, M = pq.second;
-        sweep_ratio(rng, RATECONV, L, M, a.thorough ? 6 : 2, a.thorough ? 40000 : 0);
-        sweep_ratio(rng, RESAMPLER, L, M, a.thorough ? 6 : 2, 0);
+        sweep_ratio(rng, RATECONV, L, M, a.thorough ? 24 : 6, a.thorough ? 40000 : 0);
+        sweep_ratio(rng, RESAMPLER, L, M, a.thorough ? 24 : 6, 0);
         sweep_ratio(rng, RESAMPLER, L * 100, M * 100, 1, 0);   // sample rates in Hz
     }
     sweep_ratio(rng, INTERP, 441, 1, 2, 0);
@@ -559,7 +561,8 @@ int main(int argc, char** argv) {
     for (auto pq : ratios) {
         const int p = pq.first, q = pq.second, g = std::gcd(p, q), pr = p / g, qr = q / g, R = std::max(pr, qr);
         const bool small = R <= 16;
-        for (int rep = 0; rep < (a.thorough ? 5 : 3); ++rep) {
+        for (int rep0 = 0; rep0 < (a.thorough ? 20 : 5); ++rep0) {
+            const int rep = rep0 % 5;
             std::vector<double> h;
             const char* hkind;
             bool dflt = false;
@@ -577,7 +580,7 @@ int main(int argc, char** argv) {
             else len = rng.range(2, small ? 90 : 700);
             const char* xkind;
             const auto x = gen_x(rng, size_t(len), rng.range(0, 5), 0.5 * std::min(1.0, double(pr) / qr), &xkind);
-            const bool corr = small && (h.size() + size_t(len) * size_t(1 + (pr + qr - 1) / qr) <= (a.thorough ? 3000u : 1500u)) && (rep < 2 || (p * 7 + q + rep) % 4 == 0);
+            const bool corr = small && (h.size() + size_t(len) * size_t(1 + (pr + qr - 1) / qr) <= (a.thorough ? 3000u : 1500u)) && rep0 < 5 && (rep < 2 || (p * 7 + q + rep) % 4 == 0);
             case_resample_exact(p, q, h, hkind, x, dflt, corr);
         }
     }
